@@ -928,6 +928,10 @@ class Interp:
 
     def binop(self, op, a, b, inplace=False):
         a, b = npm.unwrap0(a), npm.unwrap0(b)
+        if hasattr(a, "fvc_binop"):
+            return a.fvc_binop(self, op, b, False)
+        if hasattr(b, "fvc_binop"):
+            return b.fvc_binop(self, op, a, True)
         if isinstance(a, NDArr) or isinstance(b, NDArr):
             if isinstance(op, ast.MatMult):
                 return self.matmul(a, b)
